@@ -780,13 +780,13 @@ _c10d = PLAN['C10']['stages']
 PLAN['C10']['stages'] = lambda tier, seed: _c10d(tier, seed) + (
     [partial('partial_all', ALLP, 4, 2, stack=1, und=1, fr=1, last=True)] if tier == 'quick' else
     [partial('partial_all', ALLP, 5, 3, stack=2, und=2, fr=1),
-     partial('partial_last', ALLP + ['restore'], 5, 2, stack=1, und=1, fr=1, rst=1, last=True)])
+     partial('partial_last', ALLP + ['restore'], 4, 2, stack=1, und=1, fr=1, rst=1, last=True)])  # (n<=5 takes hours since the refused calls were added)
 PLAN['C10']['rule'] += (' Partial forests (spec/Partial.tla): after every call - blocks, refused blocks (BadModify: a block that names a leaf '
                         'the instance does not remember leaves everything as it was), Verify with remember, Ingest, Prune, Undo, '
                         're-creation from roots, a round trip - every leaf hash ever added is looked up (found exactly when remembered, '
                         'at PosOf), every position is read and CachedLeaves.Length() equals the number of remembered live leaves.')
 PLAN['C10']['bounds'] = {'quick': PLAN['C10']['bounds']['quick'] + '; partial forests n<=4, adds 0..2, all call kinds',
-                         'thorough': PLAN['C10']['bounds']['thorough'] + '; partial forests n<=5, adds 0..3, undo depth 2'}
+                         'thorough': PLAN['C10']['bounds']['thorough'] + '; partial forests n<=5, adds 0..3, undo depth 2 (with a round trip and the last action tracked: n<=4)'}
 
 
 # --------------------------------------------------------------------------- sparse tall forests
